@@ -100,7 +100,15 @@ def cmd_run(ids, props=None):
             continue
         d = worktree(sid)
         try:
-            sh("git apply %s" % os.path.join(SEEDED, sid, "patch.diff"), cwd=d)
+            rc, out = sh("git apply %s" % os.path.join(SEEDED, sid, "patch.diff"), cwd=d)
+            if rc != 0:
+                rc, out = sh("git apply -3 %s" % os.path.join(SEEDED, sid, "patch.diff"), cwd=d)
+            if rc != 0:
+                print(sid, "PATCH NO LONGER APPLIES to the current /repo HEAD:", out[-200:].replace("\n", " "), flush=True)
+                meta["applies_to_head"] = False
+                json.dump(meta, open(mp, "w"), indent=1)
+                continue
+            meta["applies_to_head"] = True
             for prop in (props or [meta["property"]]):
                 r = run_check(prop, d)
                 key = "check" if prop == meta["property"] else "check_" + prop
